@@ -499,3 +499,187 @@ Proof.
     unfold Hc in FX. rewrite Hp_l, Hp_g in FX. rewrite xH_lin in FX. lra.
 Qed.
 End PHLinear.
+
+(* set_PH / set_PS with several chemicals end either in xsolve_T_at_HP/SP on the final flows or in [correct] *)
+Ltac red0 := cbn [ms mset tick mk fst snd om].
+Ltac rauto := repeat first [ assumption | apply r_T | apply r_P | apply reach_all_vap | apply reach_all_liq
+                           | apply reach_solve_flows | apply r_refl ].
+Lemma set_PH_shape cf orc ent P H m m' s1 c :
+  wf (ms m) -> setup cf (ms m) = SOk s1 c -> (2 <= cN c)%nat ->
+  set_PH cf orc ent P H m = VOk m' ->
+  (exists k s Tg, ms m' = with_T s (o_solveT orc k s H Tg P)) \/
+  (exists T m0, m' = correct orc c T P H m0 /\ reach False c s1 (ms m0)).
+Proof.
+  intros W E HN.
+  destruct (setup_ok cf _ s1 c W E) as (_ & WC & _). pose proof WC as (L & _).
+  assert (N0 : Nat.eqb (cN c) 0 = false) by (apply Nat.eqb_neq; lia).
+  assert (N1 : Nat.eqb (cN c) 1 = false) by (apply Nat.eqb_neq; lia).
+  unfold set_PH. rewrite E. red0. rewrite N0, N1.
+  unfold call_dew, call_bubble, call_xH, call_solveT. red0.
+  destruct (o_bubble orc (mk m)) as [Tb yb]; red0.
+  repeat brk; red0; try (intros Q; inversion Q; subst; red0; left; eexists; eexists; eexists; reflexivity).
+  all: destruct (o_dew orc _) as [Td xd]; red0.
+  all: repeat brk; red0; try (intros Q; inversion Q; subst; red0; left; eexists; eexists; eexists; reflexivity).
+  all: repeat match goal with
+       | |- context [herr_eval ?o ?c0 ?T0 ?P0 ?m0] =>
+         let m' := fresh "m'" in let h := fresh "h" in let EV := fresh "EV" in
+         pose proof (herr_eval_reach False c0 o s1 L T0 P0 m0);
+         destruct (herr_eval o c0 T0 P0 m0) as [m' h] eqn:EV; cbn [fst snd] in *
+       end.
+  all: repeat brk; red0.
+  all: try (destruct (o_iq orc _) as [pts Tx]; red0).
+  all: intros Q; inversion Q; subst; right; eexists; eexists; (split; [reflexivity|]).
+  all: try (apply evals_h_reach; auto; red0).
+  all: repeat match goal with
+       | HH : reach _ _ _ _ -> reach _ _ _ (ms ?x) |- reach _ _ _ (ms ?x) => apply HH
+       | |- reach _ _ _ (ms (fst (herr_eval _ _ _ _ _))) => apply herr_eval_reach; auto
+       end.
+  all: red0; rauto.
+Qed.
+
+Section PHTop.
+Variable orc : oracle.
+Variable P : Q.
+Variables HL HG : Q -> vec -> Q.      (* T |-> enthalpy of a liquid / gas flow vector at (T, P) *)
+Variable HR : Q -> list vec -> Q.
+Hypothesis HL_ext : forall T a b, veq a b -> HL T a == HL T b.
+Hypothesis HG_ext : forall T a b, veq a b -> HG T a == HG T b.
+Hypothesis HL_add : forall T a b f, length a = length b -> HL T (vadd a (vscale f b)) == HL T a + f * HL T b.
+Hypothesis HL_sub : forall T a b f, length a = length b -> HL T (vsub a (vscale f b)) == HL T a - f * HL T b.
+Hypothesis HG_add : forall T a b f, length a = length b -> HG T (vadd a (vscale f b)) == HG T a + f * HG T b.
+Hypothesis HG_sub : forall T a b f, length a = length b -> HG T (vsub a (vscale f b)) == HG T a - f * HG T b.
+Hypothesis xH_lin : forall T k s, o_xH orc k s T P == HL T (liq s) + HG T (vap s) + HR T (oth s).
+Hypothesis Hp_l : forall T k mol, o_Hp orc k false mol T P == HL T mol.
+Hypothesis Hp_g : forall T k mol, o_Hp orc k true mol T P == HG T mol.
+
+Lemma PH_exact_linear_lemma cf ent H st s1 c m' :
+  wf st -> setup cf st = SOk s1 c -> (2 <= cN c)%nat ->
+  set_PH cf orc ent P H (mkm st 0) = VOk m' ->
+  (HL (sT (ms m')) (liq (ms m')) + HG (sT (ms m')) (vap (ms m')) + HR (sT (ms m')) (oth (ms m')) == H) \/
+  (exists k s Tg, ms m' = with_T s (o_solveT orc k s H Tg P)).
+Proof.
+  intros W E HN Q.
+  destruct (set_PH_shape cf orc ent P H (mkm st 0) m' s1 c W E HN Q) as [S|(T & m0 & -> & R)]; [right; exact S|].
+  destruct (setup_ok cf _ s1 c W E) as (_ & WC & _).
+  pose proof (reach_good False c s1 _ WC R) as (G1 & G2 & _).
+  destruct WC as (W1 & W2 & W3 & W4 & W5).
+  assert (Wm : wf (ms m0)) by (unfold wf in *; congruence).
+  assert (RG : forall i, In i (idx c) -> (i < length (liq (ms m0)))%nat) by (intros i Hi; rewrite G1; apply W3; exact Hi).
+  destruct (correct_exact_lemma orc c T P (HL T) (HG T) (HR T) (HL_ext T) (HG_ext T) (HL_add T) (HL_sub T)
+              (HG_add T) (HG_sub T) (xH_lin T) (Hp_l T) (Hp_g T) H m0 Wm W2 RG) as [(A & B)|(k & s & S)].
+  - left. rewrite B. exact A.
+  - right. exists k, s, T. exact S.
+Qed.
+End PHTop.
+
+(* an instance of the linearity hypotheses (for the non-vacuity example) *)
+Lemma qsum_veq a : forall b, veq a b -> qsum a == qsum b.
+Proof.
+  induction a as [|x a IH]; intros [|y b] (L & H); simpl in *; try discriminate; [reflexivity|].
+  assert (x == y) by (apply (H 0%nat)).
+  assert (qsum a == qsum b) by (apply IH; split; [lia|intros i; apply (H (S i))]). lra.
+Qed.
+Lemma qsum_add a : forall b f, length a = length b -> qsum (vadd a (vscale f b)) == qsum a + f * qsum b.
+Proof.
+  induction a as [|x a IH]; intros [|y b] f L; simpl in *; try discriminate; [lra|].
+  rewrite IH by lia. lra.
+Qed.
+Lemma qsum_sub a : forall b f, length a = length b -> qsum (vsub a (vscale f b)) == qsum a - f * qsum b.
+Proof.
+  induction a as [|x a IH]; intros [|y b] f L; simpl in *; try discriminate; [lra|].
+  rewrite IH by lia. lra.
+Qed.
+
+(* ------------------------------------------------------------------ exact fixed points of the iteration maps *)
+Definition w2_eq (a b : w2) : Prop :=
+  wx1 a == wx1 b /\ wx2 a == wx2 b /\ wV a == wV b /\ wl1 a == wl1 b /\ wl2 a == wl2 b.
+
+Lemma clipK_ge k : c_1e16 <= clipK k.
+Proof. unfold clipK. destruct (qltb k c_1e16) eqn:E; [lra|apply qltb_false in E; exact E]. Qed.
+
+Lemma orb_zero_false a b : qzerob a || qzerob b = false -> ~ a == 0 /\ ~ b == 0.
+Proof. intros H. apply orb_false_iff in H. destruct H as (A & B). split; apply qzerob_false; assumption. Qed.
+
+Lemma fix_iso_2n_lemma E L G Ph z1 z2 w w' :
+  (forall a b, a == b -> E a == E b) ->
+  (forall k, c_1e16 <= k -> E (L k) == k) ->
+  iter2n E L G Ph z1 z2 w = Ok w' -> w2_eq w' w ->
+  exists x1 x2 y1 y2 K1 K2 V,
+    xy2 (wx1 w) (wx2 w) (E (wl1 w)) (E (wl2 w)) = Ok ((x1, x2), (y1, y2)) /\
+    K1 = clipK (fst (G x1 x2) / fst (Ph y1 y2)) /\ K2 = clipK (snd (G x1 x2) / snd (Ph y1 y2)) /\
+    E (wl1 w) == K1 /\ E (wl2 w) == K2 /\
+    rr2 z1 z2 K1 K2 = Ok V /\ wV w == V /\ rr [z1; z2] [K1; K2] V == 0 /\
+    wx1 w == z1 / (1 + V * (K1 - 1)) /\ wx2 w == z2 / (1 + V * (K2 - 1)) /\
+    (z1 + z2 == 1 -> wx1 w + wx2 w == 1).
+Proof.
+  intros EP EL H (Q1 & Q2 & Q3 & Q4 & Q5). unfold iter2n in H.
+  destruct (xy2 (wx1 w) (wx2 w) (E (wl1 w)) (E (wl2 w))) as [[[x1 x2] [y1 y2]]|e] eqn:EX; [|discriminate].
+  cbn [bind] in H.
+  destruct (G x1 x2) as [g1 g2] eqn:EG. destruct (Ph y1 y2) as [p1 p2] eqn:EP'.
+  destruct (qzerob p1 || qzerob p2) eqn:Z1; [discriminate|].
+  set (K1 := clipK (g1 / p1)) in *. set (K2 := clipK (g2 / p2)) in *.
+  destruct (rr2 z1 z2 K1 K2) as [V|e] eqn:ER; [|discriminate]. cbn [bind] in H.
+  destruct (qzerob (1 + V * (K1 - 1)) || qzerob (1 + V * (K2 - 1))) eqn:Z2; [discriminate|].
+  apply orb_zero_false in Z2. destruct Z2 as (D1 & D2).
+  inversion H; subst w'; clear H. cbn [wx1 wx2 wV wl1 wl2] in *.
+  exists x1, x2, y1, y2, K1, K2, V.
+  assert (R : rr [z1; z2] [K1; K2] V == 0) by (apply rr2_solves_lemma; assumption).
+  split; [reflexivity|].
+  split; [unfold K1; rewrite EG, EP'; reflexivity|].
+  split; [unfold K2; rewrite EG, EP'; reflexivity|].
+  split; [apply (Qeq_trans _ (E (L K1))); [symmetry; apply EP; exact Q4|apply EL; apply clipK_ge]|].
+  split; [apply (Qeq_trans _ (E (L K2))); [symmetry; apply EP; exact Q5|apply EL; apply clipK_ge]|].
+  split; [exact ER|]. split; [symmetry; exact Q3|]. split; [exact R|].
+  split; [symmetry; exact Q1|]. split; [symmetry; exact Q2|].
+  - intros S. rewrite <- Q1, <- Q2.
+    unfold rr, qsum in R. cbn [map2 fold_right] in R. unfold rr_term in R.
+    assert (A : z1 / (1 + V * (K1 - 1)) == z1 - V * (z1 * (K1 - 1) / (1 + V * (K1 - 1)))) by (field; exact D1).
+    assert (B : z2 / (1 + V * (K2 - 1)) == z2 - V * (z2 * (K2 - 1) / (1 + V * (K2 - 1)))) by (field; exact D2).
+    rewrite A, B.
+    assert (C : V * (z1 * (K1 - 1) / (1 + V * (K1 - 1))) + V * (z2 * (K2 - 1) / (1 + V * (K2 - 1))) ==
+                V * (z1 * (K1 - 1) / (1 + V * (K1 - 1)) + (z2 * (K2 - 1) / (1 + V * (K2 - 1)) + 0))) by ring.
+    rewrite R in C. lra.
+Qed.
+
+Lemma nthq_map_lt (f : Q -> Q) l i : (i < length l)%nat -> nthq (map f l) i = f (nthq l i).
+Proof.
+  unfold nthq. revert i; induction l as [|x l IH]; intros [|i] H; simpl in *; try lia; auto. apply IH. lia.
+Qed.
+
+Definition wn_eq (a b : wn) : Prop := veq (nx a) (nx b) /\ nV a == nV b /\ veq (nl a) (nl b).
+
+Lemma fix_iso_n_lemma E L G Ph rrsolve z w w' :
+  (forall a b, a == b -> E a == E b) ->
+  (forall k, c_1e16 <= k -> E (L k) == k) ->
+  itern E L G Ph rrsolve z w = Ok w' -> wn_eq w' w ->
+  exists x y Ks V,
+    xyn (nx w) (map E (nl w)) = Ok (x, y) /\
+    Ks = map clipK (map2 Qdiv (G x) (Ph y)) /\
+    veq (map E (nl w)) Ks /\
+    V = rrsolve z Ks (if qltb (nV w) 0 then 0 else if qltb 1 (nV w) then 1 else nV w) /\ nV w == V /\
+    veq (nx w) (map2 (fun zi k => zi / (1 + V * (k - 1))) z Ks) /\
+    (forall i, (i < length Ks)%nat -> ~ 1 + V * (nthq Ks i - 1) == 0).
+Proof.
+  intros EP EL H (Q1 & Q2 & Q3). unfold itern in H.
+  destruct (xyn (nx w) (map E (nl w))) as [[x y]|e] eqn:EX; [|discriminate]. cbn [bind] in H.
+  destruct (existsb qzerob (Ph y)); [discriminate|].
+  set (Ks := map clipK (map2 Qdiv (G x) (Ph y))) in *.
+  set (V := rrsolve z Ks (if qltb (nV w) 0 then 0 else if qltb 1 (nV w) then 1 else nV w)) in *.
+  destruct (existsb (fun k => qzerob (1 + V * (k - 1))) Ks) eqn:Z; [discriminate|].
+  inversion H; subst w'; clear H. cbn [nx nV nl] in *.
+  exists x, y, Ks, V. repeat split; auto.
+  - destruct Q3 as (L3 & _). rewrite !map_length in *. congruence.
+  - intros i. destruct Q3 as (L3 & P3). rewrite map_length in L3.
+    destruct (Nat.lt_ge_cases i (length Ks)) as [Hi|Hi].
+    + rewrite nthq_map_lt by lia. specialize (P3 i). rewrite nthq_map_lt in P3 by exact Hi.
+      apply (Qeq_trans _ (E (L (nthq Ks i)))); [symmetry; apply EP; exact P3|apply EL].
+      unfold Ks. rewrite nthq_map_lt by (unfold Ks in Hi; rewrite map_length in Hi; exact Hi). apply clipK_ge.
+    + rewrite !nthq_over; [reflexivity|exact Hi|rewrite map_length; lia].
+  - symmetry. exact Q2.
+  - destruct Q1 as (A & _). symmetry. exact A.
+  - intros i. destruct Q1 as (_ & B). symmetry. apply B.
+  - intros i Hi D.
+    assert (F : existsb (fun k => qzerob (1 + V * (k - 1))) Ks = true).
+    { apply existsb_exists. exists (nthq Ks i). split; [apply nth_In; exact Hi|]. apply qzerob_true. exact D. }
+    congruence.
+Qed.
